@@ -274,7 +274,8 @@ def _run(check: Check, args, t0: float) -> int:
     seed = int(seed_env) if seed_env not in (None, "") else DEFAULT_SEED[tier]
     print(f"check={check.id} tier={tier} VERIF_SEED={seed} repo_head={_repo_head()[:12]}")
     _calibrate()
-    check.setup(tier, seed)
+    if not (args.replay and os.environ.get("VERIF_PRISTINE")):  # (run_case_fresh: nothing of the library may run before the case)
+        check.setup(tier, seed)
     if args.replay:
         return _replay(check, args.replay)
     cases = check.cases(tier, seed)
@@ -568,10 +569,37 @@ def _replay(check: Check, path: str) -> int:
         return 1
     if v:
         print(f"replay gave a different violation: {v['sig']} (file says {doc.get('signature')})")
+        print(f"DETAIL: {v.get('detail', '')[:600]}")
         print(f"VIOLATION property={check.id} replay={path}")
         return 1
     print("replay: no violation (property holds on this case with the current tree)")
     return 0
+
+
+def run_case_fresh(check_id: str, inner_case, env: t.Optional[dict] = None, timeout: int = 300, py_args: t.Sequence[str] = ()) -> t.Optional[dict]:
+    """Run ``inner_case`` of check ``check_id`` in a NEW interpreter (nothing of the library has run there yet: process-global
+    first-use state is pristine) through the ordinary replay path; -> the violation it reports, or None.  Deterministic: the
+    child gets PYTHONHASHSEED=0 and the case decides everything else."""
+    import re
+    import subprocess
+    import tempfile
+
+    fd, path = tempfile.mkstemp(prefix=f"verif-{check_id.lower()}-fresh-", suffix=".json")
+    try:
+        with os.fdopen(fd, "w") as f:
+            json.dump({"check": check_id, "signature": "?", "case": inner_case}, f)
+        e = dict(os.environ, PYTHONHASHSEED="0", PYTHONPATH=VERIF, VERIF_PRISTINE="1")
+        e.update(env or {})
+        p = subprocess.run([sys.executable, *py_args, os.path.join(VERIF, "checks", "main.py"), check_id, "--replay", path], capture_output=True, text=True, env=e, timeout=timeout)
+    finally:
+        os.unlink(path)
+    m = re.search(r"replay gave a different violation: (\S+)", p.stdout)
+    if p.returncode == 1 and m:
+        d = re.search(r"DETAIL: (.*)", p.stdout)
+        return {"sig": m.group(1), "detail": (d.group(1) if d else p.stdout.strip().splitlines()[-1])[:600]}
+    if p.returncode != 0:
+        raise HarnessError(f"fresh-process sub-run failed (exit {p.returncode}): {p.stdout[-300:]} {p.stderr[-600:]}")
+    return None
 
 
 # ---------------------------------------------------------------- budgets ----
